@@ -157,6 +157,7 @@ type Schema struct {
 	IDAlphabet         []byte
 	IDMaxLen           int
 	UintIDs            bool // primary keys are big-endian uint64 of small integers
+	Wide               bool // wide fan-out: ids are [a|b] + one of 64 letters (or nothing); transactions have grow/shrink phases
 }
 
 var Schemas = []Schema{
@@ -164,7 +165,16 @@ var Schemas = []Schema{
 	{Name: "b", Pfx: true, LPM: true, UintIDs: true},
 	{Name: "c", IDAlphabet: []byte{0x00, 'a', 'b'}, IDMaxLen: 2},
 	{Name: "d", Tags: true, U: true, Pfx: true, LPM: true, IDAlphabet: []byte{0x00, 0x01, 'a', 0xff}, IDMaxLen: 2},
+	{Name: "e", Wide: true, Tags: true, IDAlphabet: wideAlphabet, IDMaxLen: 2},
 }
+
+var wideAlphabet = func() []byte {
+	var a []byte
+	for i := 0; i < 64; i++ {
+		a = append(a, byte(0x30+i))
+	}
+	return a
+}()
 
 // NewTable registers a table of the schema.
 func (s Schema) NewTable(db *statedb.DB, name string) (statedb.RWTable[*Obj], error) {
